@@ -20,9 +20,12 @@ type clause struct {
 }
 
 // render writes a value the way doc/queries.md does: bare when it is a single word, in double
-// quotes when it contains a space or a colon (or when forced).
+// quotes when it contains a space or a colon (or when forced). A value containing an apostrophe
+// is written in double quotes too: in the documented language double quotes delimit and the other
+// quote character inside them is an ordinary character (an apostrophe outside double quotes opens
+// a single-quoted section, which the documentation does not mention: never-panic only).
 func renderValue(v string, force bool) string {
-	if force || strings.ContainsAny(v, " :") {
+	if force || strings.ContainsAny(v, " :'") {
 		return `"` + v + `"`
 	}
 	return v
@@ -73,13 +76,17 @@ func sortMeaning(v string) (query.OrderBy, query.OrderDirection) {
 }
 
 // roundTripCatalogue is the clause alphabet of part (b): every qualifier with values from
-// {word, Cased, two words (quoted), unicode, value containing ':' (quoted), word in quotes}.
+// {word, Cased, two words (quoted), unicode, value containing ':' (quoted), word in quotes} and,
+// all in double quotes, values containing apostrophes: one word, two words, apostrophe and colon,
+// two apostrophes (balanced for a lexer that lets either quote character close a section), a word
+// wrapped in apostrophes (would lose them if quotes were stripped twice).
 func roundTripCatalogue() []clause {
 	type val struct {
 		v     string
 		force bool
 	}
-	values := []val{{"word", false}, {"Cased", false}, {"two words", false}, {"René", false}, {"a:b", false}, {"word", true}}
+	values := []val{{"word", false}, {"Cased", false}, {"two words", false}, {"René", false}, {"a:b", false}, {"word", true},
+		{"can't", false}, {"can't reproduce", false}, {"it's:here", false}, {"'tis 'twas", false}, {"'quoted'", false}}
 	out := []clause{mk("status", "open", false), mk("status", "closed", false)}
 	for _, kind := range []string{"author", "actor", "participant", "label", "title", "search"} {
 		for _, v := range values {
@@ -88,7 +95,7 @@ func roundTripCatalogue() []clause {
 	}
 	out = append(out, mk("nolabel", "", false))
 	for _, key := range []string{"github-id", "origin"} {
-		for _, v := range values[:3] {
+		for _, v := range append(append([]val{}, values[:3]...), val{"it's:here", false}, val{"'tis 'twas", false}) {
 			out = append(out, mkMeta(key, v.v, v.force))
 		}
 	}
@@ -197,6 +204,9 @@ var malformedPieces = []struct{ Text, Why string }{
 	{"metadata:k::v", "empty part between two colons"},
 	{`title:"unterminated`, "unmatched double quote"},
 	{`"unterminated phrase`, "unmatched double quote"},
+	{`title:"can't`, "unmatched double quote around an apostrophe"},
+	{`"can't`, "unmatched double quote around an apostrophe"},
+	{`label:"it's`, "unmatched double quote around an apostrophe"},
 }
 
 // Sequences of 1..maxLen indices below n are enumerated in length-then-lexicographic order and
